@@ -36,7 +36,15 @@ with open(known, "w") as fh:
         if f.get("status") == "known":
             fh.write("%s\t%s\t%s\n" % (f["property"], f["signature"], f["what"].replace("\n", " ")))
 env["VERIF_KNOWN"] = known
-if os.path.exists(exe + ".fuzz") and not base.endswith(".tape"):
+if base.endswith(".rerun"):
+    # history-dependent failure: the replay unit is a whole worker run (pure function of its seed)
+    d = json.load(open(path))
+    scratch = os.path.join(HERE, ".build", "run", "rerun-%d" % os.getpid())
+    os.makedirs(scratch, exist_ok=True)
+    rc = subprocess.call([exe] + d["args"] + ["--part", os.path.join(scratch, "part.json"), "--replays", os.path.join(scratch, "replays")], env=env)
+    import shutil
+    shutil.rmtree(scratch, ignore_errors=True)
+elif os.path.exists(exe + ".fuzz") and not base.endswith(".tape"):
     rc = subprocess.call([exe + ".fuzz", path], env=env)
 else:
     rc = subprocess.call([exe, "--replay", path], env=env)
